@@ -60,6 +60,10 @@ def _case(draw, kind):
                 user_jac=draw(st.booleans()) if kind == "implicit" else False,
                 # before a later step the same integrator object may be sent to an unrelated point (object reuse, edited
                 # state, re-integration after a roll-back): cached slopes must not leak into that step
+                # the constants passed to the rhs may differ from step to step (k scales f): a slope cached from the previous call
+                # belongs to the previous constants
+                ks=[draw(st.sampled_from([1.0, 1.0, 0.5, -1.5])) for _ in range(3)],
+                stiff=draw(st.sampled_from([1.0, 1.0, 1.0, 10.0, 40.0])) if kind == "implicit" else 1.0,
                 jump=[draw(st.booleans()) for _ in range(2)], jump_y=draw(PR.state(rhs["shape"])), jump_t=draw(st.sampled_from([0.5, -1.25, 7.0])))
 
 
@@ -86,7 +90,30 @@ def check(case):
     dt = M.DTYPES[dtname]
     W = M.wider(dtname)
     eps = float(np.finfo(dt).eps)
-    f = PR.Prog(case["rhs"])
+    rp = case["rhs"]
+    if case.get("stiff", 1.0) != 1.0:
+        rp = dict(rp, P=[[x * case["stiff"] for x in row] for row in rp["P"]])     # stiffer stage systems: Newton works harder / fails
+    f0 = PR.Prog(rp)
+    kbox = [1.0]
+
+    class Scaled(object):
+        """f scaled by the constant k of the current call (the harness' reference uses the same k)"""
+        shape, n, p = f0.shape, f0.n, f0.p
+        nonlinear, time_dependent = f0.nonlinear, f0.time_dependent
+        _mats = f0._mats
+
+        def __call__(self, t, y, **kw):
+            return f0(t, y) * np.asarray(y).dtype.type(kw.get("k", kbox[0]))
+
+        def jac(self, t, y, **kw):
+            return f0.jac(t, y) * np.asarray(y).dtype.type(kw.get("k", kbox[0]))
+
+        def lipschitz(self):
+            return f0.lipschitz() * abs(kbox[0])
+
+        def magnitude(self, ymax):
+            return f0.magnitude(ymax) * abs(kbox[0])
+    f = Scaled()
     shape = f.shape
     n = f.n
     cls = M.get(name)
@@ -104,15 +131,16 @@ def check(case):
     if case.get("user_jac"):
         rhs = DiffRHS(f)
     else:
-        rhs = DiffRHS(lambda t, y, **kw: f(t, y))
+        rhs = DiffRHS(lambda t, y, **kw: f(t, y, **kw))
     returned_steps = 0
     Lf = f.lipschitz()
 
     for step_no in range(case["nsteps"]):
         y_in = y.copy()
         t_in = dt(t)
+        kbox[0] = case.get("ks", [1.0, 1.0, 1.0])[step_no]
         try:
-            next_dt, (dT, dY) = integ(rhs, t, y, {}, h)
+            next_dt, (dT, dY) = integ(rhs, t, y, {"k": kbox[0]}, h)
         except FailedToMeetTolerances:
             labels.append("reported_failure")
             break
